@@ -215,7 +215,10 @@ Definition rest_run (rq : rreq) (e : renv) : rres :=
   (* a HEAD request is answered without a body (net/http) *)
   if String.eqb (rr_meth rq) "HEAD" then mk_rres (rs_calls r) (rs_status r) (match rs_ndocs r with Some _ => Some 0%N | None => None end) (rs_serr r) else r.
 
-(* ---- the bundled client (methods.go): which request each call builds ---- *)
+(* ---- the bundled client (methods.go): which request each call builds ----
+   rr_path is the DECODED path the server routes on. Since fix-S27 the client escapes the IPFS path ((&url.URL{Path: p}).EscapedPath())
+   and the metric name (url.PathEscape); net/url's unescape on the server is the inverse of both (trusted), so the printed argument
+   reaches rr_path unchanged, whatever its characters. CIDs and peer IDs are alphanumeric. *)
 Record ccall := mk_ccall {
   cc_name : string;
   cc_local : bool;
